@@ -95,6 +95,18 @@ R2.update({
  "C10-6": ("/tmp/seeds3/D/2", "C10", "three consecutive Pending polls with wakers A, B, A (the second re-poll REUSES the older waker), then any publish: cached `registered` not updated on replace, stale waker woken", []),
 })
 
+# fourth round: deep seeds again, with the list of everything used so far as "avoid"
+R2.update({
+ "C01-3": ("/tmp/seeds4/A/1", "C01", "an Entity whose Data is a NON-CONTIGUOUS Buf (chunk().len() < remaining()): ExactLenStream counts chunk().len(), so an honest stream ends in a bogus error / an over-long one passes extra bytes", ["C02", "C07"]),
+ "C06-7": ("/tmp/seeds4/A/2", "C06", "multipart without If-Range and an entity header value with bytes >= 0x80 that are not UTF-8 (Latin-1 file name): rendered through from_utf8_lossy in every part", []),
+ "C03-6": ("/tmp/seeds4/B/1", "C03", "a position token longer than 20 characters because of leading zeros (bytes=000000000000000000001-2): whole header ignored", []),
+ "C05-3": ("/tmp/seeds4/B/2", "C05", "strong ETag containing a byte >= 0x80, echoed in If-Range: value read with to_str().unwrap_or_default(), treated as a date, Range dropped", ["C14"]),
+ "C12-6": ("/tmp/seeds4/C/1", "C12", ">= 2 chunks queued, the consumer takes fewer frames than were queued, then the writer is dropped with an empty buffer: reader-local queue not counted by is_end_stream", ["C08"]),
+ "C17-3": ("/tmp/seeds4/C/2", "C17", "builder configured twice: with_gzip_level(0) and later with_gzip_level(1..9) on a gzip-preferring request: level 0 sticks", []),
+ "C10-7": ("/tmp/seeds4/D/1", "C10", ">= 65 chunks queued and 64 consecutive Ready polls with the writer alive but idle: 'yield budget' returns Pending without waking itself", ["C08"]),
+ "C11-5": ("/tmp/seeds4/D/2", "C11", ">= 9 chunks queued, the pop that leaves len <= capacity/4, and an abort landing between the reader's unlock and re-lock (queue taken out for shrink_to_fit, put back over the Err state)", ["C10"]),
+})
+
 def sh(cmd, **kw):
     return subprocess.run(cmd, shell=True, capture_output=True, text=True, **kw)
 
